@@ -472,7 +472,7 @@ Proof.
     destruct (startswith (x ++ [DOT]) (key3 c p s)) eqn:E; [|reflexivity].
     apply prefix_ctx in E; try assumption. congruence.
   - intros p s. unfold Rk. simpl.
-    match goal with |- smem str_eqb x (opt_list (slk ?k ?t)) = false => destruct (slk k t) as [l|] eqn:El end; [|reflexivity].
+    destruct (slk _ _) as [l|] eqn:El; [|reflexivity].
     simpl. apply (smem_false str_eqb str_eqb_spec). intro Hin.
     apply (alookup_In str_eqb str_eqb_spec) in El. apply in_flat_map in El as [[k0 l0] [_ El]]. simpl in El.
     destruct (smem str_eqb x l0) eqn:Em.
